@@ -255,7 +255,7 @@ func (fs *FS) Remove(name string) error {
 	}
 	if name == "." {
 		// the root directory can't be removed, every other file hangs off of it
-		return fs.wrapperErr("remove", name, hackpadfs.ErrInvalid)
+		return fs.wrapperErr("remove", name, hackpadfs.ErrPermission)
 	}
 
 	if file.Mode().IsDir() {
@@ -369,7 +369,7 @@ func (fs *FS) checkRenameDestination(oldname, newname string, oldInfo hackpadfs.
 	}
 	if oldname == "." {
 		// the root directory can't be moved
-		return hackpadfs.ErrInvalid
+		return hackpadfs.ErrPermission
 	}
 	newFile, err := fs.getFile(newname)
 	switch {
